@@ -245,6 +245,9 @@ namespace bloch::runtime {
             bool initialized = false;
         };
         std::vector<std::unordered_map<std::string, VarEntry>> m_env;
+        // Index into m_env of the first scope of the running call (lexical scoping).
+        size_t m_frameStart = 0;
+        std::vector<size_t> m_frameStack;
         Value m_returnValue;
         bool m_hasReturn = false;
         std::unordered_map<const Expression*, std::vector<int>> m_measurements;
@@ -339,6 +342,8 @@ namespace bloch::runtime {
         // Scope & output helpers
         void beginScope();
         void endScope();
+        void beginFrame();
+        void endFrame();
         void flushEchoes();
 
        public:
